@@ -57,6 +57,13 @@ def states(tier, seed):
             out.append({"kind": k, "heavyness": h, "process": p, "scheme": sc, "pto": pto, "M": M, "Q2": q2, "grid": g})
         for k, p in itertools.product(["F2", "FL", "F3", "g1"], ["NC"]):
             out.append({"kind": k, "heavyness": "total", "process": p, "scheme": "ZM-VFNS", "pto": 2, "M": 0.938, "Q2": 4.0, "grid": "G9"})
+    # combinations: leading order in schemes with massive quarks (FL is non-zero at LO there: intrinsic channel, CC heavy-quark production), FONLL, scale variations on
+    for k in ["F2", "FL", "F3", "g1"]:
+        out.append({"kind": k, "heavyness": "charm", "process": "NC", "scheme": "FFNS3", "pto": 0, "M": 0.938, "Q2": 6.0, "grid": "G9"})
+        out.append({"kind": k, "heavyness": "total", "process": "EM" if k != "F3" else "NC", "scheme": "FONLL-FFNS4", "pto": 0, "M": 0.938, "Q2": 30.0, "grid": "G9", "sv": True})
+        if k != "g1":
+            out.append({"kind": k, "heavyness": "total", "process": "CC", "scheme": "FFNS3", "pto": 0, "M": 0.938, "Q2": 6.0, "grid": "G9"})
+            out.append({"kind": k, "heavyness": "bottom", "process": "CC", "scheme": "FFNS4", "pto": 1, "ptodis": 0, "M": 1.5, "Q2": 30.0, "grid": "G9", "projectile": "antineutrino"})
     # options: scale-variation keys kept (every order key must obey the formula), non-canonical projectiles, polarised beam, nuclear target
     for k in ["F2", "FL", "F3", "g1"]:
         out.append({"kind": k, "heavyness": "total", "process": "NC", "scheme": "ZM-VFNS", "pto": 1, "M": 0.938, "Q2": 4.0, "grid": "G9", "sv": True, "projectile": "positron", "obscard": {"PolarizationDIS": -0.6, "PropagatorCorrection": 0.05}})
@@ -119,7 +126,7 @@ def execute(st):
     name = cards.obsname(kind, h)
     sv = bool(st.get("sv"))
     base = {"scheme": st["scheme"], "process": st["process"], "pto": st["pto"], "grid": st["grid"], "theory": {"MP": st["M"], "RenScaleVar": sv, "FactScaleVar": sv}}
-    for kk in ("projectile", "target", "obscard"):
+    for kk in ("projectile", "target", "obscard", "ptodis"):
         if kk in st:
             base[kk] = st[kk]
     # raw run: all needed kinds at nodes and at xi(x)
